@@ -65,16 +65,20 @@ static void net_eval(const cs_vna *v, int variant, double f, int sys,
     const double x = cs_xf(v, f);
     const bool full = is_16(v->type);
     const bool leak = has_leak(v->type) && variant >= 1;
-    double em_mag = variant == 0 ? 0.05 : variant == 1 ? 0.35 : 0.2;
-    double el_mag = variant == 0 ? 0.02 : variant == 1 ? 0.15 : 0.1;
-    double off_mag = variant == 2 ? 0.08 : 0.04;
-    double lk_mag = variant == 2 ? 0.05 : 0.02;
+    /* variant 3: (almost) ideal instrument: directivity, match and leakage
+       at the 1e-4 level, so that a match reads close to zero */
+    double em_mag = variant == 0 ? 0.05 : variant == 1 ? 0.35 :
+	variant == 3 ? 1e-4 : 0.2;
+    double el_mag = variant == 0 ? 0.02 : variant == 1 ? 0.15 :
+	variant == 3 ? 1e-4 : 0.1;
+    double off_mag = variant == 2 ? 0.08 : variant == 3 ? 1e-4 : 0.04;
+    double lk_mag = variant == 2 ? 0.05 : variant == 3 ? 1e-4 : 0.02;
 
     memset(n, 0, sizeof(*n));
     for (int r = 0; r < v->rows; ++r) {
 	for (int c = 0; c < v->cols; ++c) {
 	    coef_t k = coef(v, variant, sys, 0, r, c,
-		    r == c ? el_mag : lk_mag, 0.01);
+		    r == c ? el_mag : lk_mag, variant == 3 ? 1e-5 : 0.01);
 	    if (r == c || leak)
 		n->El[r * P + c] = k.base + k.slope * x;
 	}
@@ -104,7 +108,8 @@ static void net_eval(const cs_vna *v, int variant, double f, int sys,
 	}
 	for (int q = 0; q < P; ++q) {
 	    if (p == q) {
-		coef_t k = coef(v, variant, sys, 3, p, q, em_mag, 0.02);
+		coef_t k = coef(v, variant, sys, 3, p, q, em_mag,
+			variant == 3 ? 1e-5 : 0.02);
 		n->Em[p * P + q] = k.base + k.slope * x;
 	    } else if (full) {
 		coef_t k = coef(v, variant, sys, 3, p, q, off_mag, 0.01);
@@ -1179,6 +1184,16 @@ int cs_recipe(cs_scenario *sc, int recipe, int ev, int av, int pv, int kv)
     if (recipe == 1) {
 	if (P < 2)
 	    return -1;
+	if (P >= 3) {
+	    /* a three-port "chain": ports 1-2 and 2-3 coupled, the direct
+	       1-3 transfer explicitly zero, so that ports 1 and 3 are
+	       connected only through port 2 */
+	    int ports[3] = { 1, 2, 3 };
+	    int sp[9] = { l11, l12, -1,
+			  l21, l22, l12,
+			  -1,  l21, pm };
+	    push_std(sc, SK_DENSE, 3, ports, sp, NULL, ev, av, pv);
+	}
 	for (int p = 1; p <= P; ++p) {
 	    for (int q = p + 1; q <= P; ++q) {
 		int ports[2] = { p, q };
